@@ -36,10 +36,10 @@ def hashPt (h : Fr) : G1.Pt := h • G1.base
 /-- one call of a history case (`hist`): the calls of one line share mutable message buffers on the
 Go side; the functions are pure in the message VALUE, so the model only tracks, per buffer, the hash
 scalar of the bytes it holds at call time (`w` steps carry it). -/
-def histStep (t n : Nat) (f : List Fr) (bufs : List (Nat × Fr)) (st : String) :
+def histTok (t n : Nat) (f : List Fr) (bufs : List (Nat × Fr)) (toks : List String) :
     List (Nat × Fr) × String :=
   let look (b : Nat) : Option Fr := (bufs.find? (fun e => e.1 == b)).map (·.2)
-  match st.splitOn ":" with
+  match toks with
   | ["w", b, h, _msg] =>
     match b.toNat?, parseZ (q := G1.r) h with
     | some b, some h => ((b, h) :: bufs.filter (fun e => e.1 != b), "w")
@@ -65,6 +65,10 @@ def histStep (t n : Nat) (f : List Fr) (bufs : List (Nat × Fr)) (st : String) :
     | some h, some es => (bufs, showRes (recover g1Codec f (hashPt h) es t n))
     | _, _ => (bufs, "bad-op")
   | _ => (bufs, "bad-op")
+
+/-- a step is its `:`-separated tokens -/
+def histStep (t n : Nat) (f : List Fr) (bufs : List (Nat × Fr)) (st : String) :
+    List (Nat × Fr) × String := histTok t n f bufs (st.splitOn ":")
 
 def histRun (t n : Nat) (f : List Fr) (steps : List String) : String :=
   let r := steps.foldl (fun (acc : List (Nat × Fr) × List String) st =>
